@@ -394,3 +394,76 @@ def c08(rec):
             out.append(_verdict("C08", "declined_error", "einsum:" + type(ex).__name__))
     out.extend({"status": "_event", "event": e} for e in events)
     return out
+
+
+# ---------------------------------------------------------------------------
+# C09: plated sum-product
+
+def _sp_sig(rec):
+    fs = ";".join(",".join(n for n, _ in f["ins"]) for f in rec["factors"])
+    return "%s/%s[%s]elim{%s}" % (rec["plus"], rec["times"], fs, ",".join(sorted(rec["elim"])))
+
+
+def c09(rec):
+    """C09: sum_product, partial_sum_product (one call and every valid two-call split), the
+    modified / dynamic variants with empty Markov steps and plated einsum equal the unrolled
+    oracle TLC computed; ValueError only where ordinals are incomparable."""
+    from functools import reduce as freduce
+    from funsor.sum_product import (dynamic_partial_sum_product, modified_partial_sum_product,
+                                    partial_sum_product, sum_product)
+    exp = rec["exp"]
+    sig = _sp_sig(rec)
+    plus, times = fbuild.ASSOC[rec["plus"]], fbuild.ASSOC[rec["times"]]
+    b = fbuild.Builder()
+    factors = [b.build(f) for f in rec["factors"]]
+    elim = frozenset(rec["elim"])
+    plates = frozenset(rec["plates"])
+    out = []
+
+    def prod(fs):
+        return freduce(times, fs)
+
+    def judge(what, fn):
+        try:
+            r = fn()
+        except ValueError as e:
+            if rec["comparable"]:
+                out.append(_verdict("C09", "mismatch", what + "_valueerror_on_tractable", str(e)[:120], sig=sig))
+            else:
+                out.append(_verdict("C09", "declined_error", what + ":ValueError", sig=sig))
+            return
+        except Exception as e:  # noqa
+            out.append(_verdict("C09", "declined_error", what + ":" + type(e).__name__, sig=sig))
+            return
+        v = _eval_check(r, exp, "C09", what, need_output=False)
+        v["sig"] = sig
+        out.append(v)
+
+    judge("sum_product", lambda: sum_product(plus, times, factors, elim, plates))
+    judge("partial", lambda: prod(partial_sum_product(plus, times, factors, elim, plates)))
+    for e1 in rec["splits"]:
+        e1 = frozenset(e1)
+        judge("split", lambda: prod(partial_sum_product(
+            plus, times, partial_sum_product(plus, times, factors, e1, plates), elim - e1, plates)))
+    p2s = {p: frozenset() for p in plates & elim}
+    judge("modified", lambda: prod(modified_partial_sum_product(plus, times, factors, elim, p2s)))
+    judge("dynamic", lambda: prod(dynamic_partial_sum_product(plus, times, factors, elim, p2s)))
+    backend = EINSUM_BACKENDS.get((rec["plus"], rec["times"]))
+    if backend:
+        from funsor.einsum import einsum, naive_plated_einsum
+        names = []
+        for f in rec["factors"]:
+            for n, _ in f["ins"]:
+                if n not in names:
+                    names.append(n)
+        sym = {n: n for n in names}      # names are single letters already
+        outs = [n for n in names if n not in elim]
+        eq = ",".join("".join(n for n, _ in f["ins"]) for f in rec["factors"]) + "->" + "".join(outs)
+        pl = "".join(sorted(plates & set(names)))
+        # plated einsum product-reduces plates absent from the output and sum-reduces the other
+        # absent names: expressible only if elim = all names not in the output
+        if set(names) - set(outs) == set(elim) and all(
+                set(outs) & plates <= {n for n, _ in f["ins"]} for f in rec["factors"]):
+            judge("einsum", lambda: einsum(eq, *factors, plates=pl, backend=backend))
+            judge("naive_plated_einsum", lambda: naive_plated_einsum(eq, *factors, plates=pl, backend=backend))
+    return out
